@@ -434,9 +434,12 @@ func checkStorableSize(s atree.Storable, path string, st *sizeStats) error {
 // content equality of two slab descriptions (live vs decoded)
 
 func slabInfoEqual(a, b *atree.VerifSlab, path string) error {
+	// documented exception: a same-typed inlined composite map decoded from the shared compact form may
+	// adopt the shared seed and internal order (hence also another first digest)
+	compact := a.Kind == "map-data" && a.Inlined && isCompactCandidate(a)
 	if a.Kind != b.Kind || a.ID != b.ID || a.HasExtraData != b.HasExtraData || a.Inlined != b.Inlined ||
 		a.AnySize != b.AnySize || a.CollisionGroup != b.CollisionGroup || a.Next != b.Next || a.Size != b.Size ||
-		a.Count != b.Count || a.FirstKey != b.FirstKey {
+		a.Count != b.Count || (a.FirstKey != b.FirstKey && !compact) {
 		return fmt.Errorf("%s: header fields differ: %+v vs %+v", path, headerOf(a), headerOf(b))
 	}
 	if a.HasExtraData {
@@ -449,7 +452,6 @@ func slabInfoEqual(a, b *atree.VerifSlab, path string) error {
 			return fmt.Errorf("%s: map count %d vs %d", path, a.MapCount, b.MapCount)
 		}
 	}
-	compact := a.Kind == "map-data" && a.Inlined && isCompactCandidate(a)
 	if a.HasExtraData && !compact && a.MapSeed != b.MapSeed {
 		return fmt.Errorf("%s: map seed %d vs %d", path, a.MapSeed, b.MapSeed)
 	}
